@@ -15,6 +15,7 @@ import (
 	"fmt"
 	"net/http"
 	"net/http/httptest"
+	"regexp"
 	"sort"
 	"strings"
 	"sync"
@@ -53,6 +54,49 @@ const (
 var secrets = []string{mark, fmt.Sprint(ruleRate), fmt.Sprint(defaultRate), fmt.Sprint(allRuleRate)}
 
 var tokens = []string{"", "t", "Tok"}
+
+// longTokens: configured tokens of the lengths in real use (hex-16, 31/32/33 around a common fixed-width boundary,
+// UUID-36, hex SHA-256 64, and a 200-character one); part 2 below derives every near miss from each.
+var longTokens = []string{
+	"0123456789abcdef",
+	"Zq3vX8mK1pL7wRt5yB9nC2dF6gH0jS4",
+	"Zq3vX8mK1pL7wRt5yB9nC2dF6gH0jS4a",
+	"Zq3vX8mK1pL7wRt5yB9nC2dF6gH0jS4aU",
+	"3f2b8c1e-7a4d-4e9b-b6c5-0d1e2f3a4b5c",
+	"9f86d081884c7d659a2feaa0c55ad015a3bf4f1b2b0b822cd15d6c15b0f00a08",
+	strings.Repeat("Ab3-", 50),
+}
+
+// nearMisses: the exact token (must be accepted) and every derived wrong value (must be refused).
+func nearMisses(tok string) []hv {
+	l := func(v string) string { return header + ": " + v }
+	out := []hv{{"exact", []string{l(tok)}, []string{tok}}}
+	add := func(name, v string) {
+		if v != tok && v == strings.TrimSpace(v) {
+			out = append(out, hv{name, []string{l(v)}, []string{v}})
+		}
+	}
+	for k := 1; k < len(tok); k++ {
+		add(fmt.Sprintf("prefix-%d", k), tok[:k])
+		add(fmt.Sprintf("prefix-%d+foreign-tail", k), tok[:k]+"~~~~")
+		add(fmt.Sprintf("prefix-%d+padded-to-length", k), tok[:k]+strings.Repeat("~", len(tok)-k))
+		add(fmt.Sprintf("suffix-from-%d", k), tok[k:])
+	}
+	for k := 0; k < len(tok); k++ {
+		c := byte('#')
+		if tok[k] == c {
+			c = '%'
+		}
+		add(fmt.Sprintf("substitute-at-%d", k), tok[:k]+string(c)+tok[k+1:])
+	}
+	for _, tail := range []string{"x", "0", "xy", "~~~", tok} {
+		add("exact+"+tail[:1]+fmt.Sprintf("(%d more)", len(tail)), tok+tail)
+	}
+	add("case-variant", swapCase(tok))
+	return out
+}
+
+var digits = regexp.MustCompile(`[0-9]+`)
 
 // hv is one way of presenting (or not presenting) a token.
 type hv struct {
@@ -244,10 +288,9 @@ func main() {
 	}
 	var pmu sync.Mutex
 	pend := map[string]pending{}
-	enumx.Each(r, "query-auth", dims, workers, func(idx []int) {
+	runCase := func(token string, h hv, rtv rt, l pipeline.Listener, ord int) {
 		n := <-pool
 		defer func() { pool <- n }()
-		token, h, rtv, l := tokens[idx[0]], variants(tokens[idx[0]])[idx[1]], rts[idx[2]], listeners[idx[3]]
 		path := expand.Replace(rtv.Path)
 		c := caseDesc{Token: token, Header: h.Name, Method: rtv.Method, Path: path, Listener: l.String(), Lines: h.Lines}
 
@@ -281,7 +324,6 @@ func main() {
 			verdict = "allow"
 		}
 		body := w.Body.String()
-		ord := ((idx[0]*dims[1]+idx[1])*dims[2]+idx[2])*dims[3] + idx[3]
 		fail := func(class, what string) {
 			pmu.Lock()
 			if p, ok := pend[class]; !ok || ord < p.ord {
@@ -316,7 +358,7 @@ func main() {
 		switch verdict {
 		case "deny":
 			r.Add("must_deny_cases", 1)
-			why := "token-mismatch:" + h.Name
+			why := "token-mismatch:" + digits.ReplaceAllString(h.Name, "N")
 			if token == "" {
 				why = "no-token-configured:" + h.Name
 			}
@@ -375,7 +417,41 @@ func main() {
 			}
 			r.Distinct("mixed_value_outcomes", fmt.Sprintf("%s:%v", h.Name, w.Code < 400))
 		}
+	}
+	enumx.Each(r, "query-auth", dims, workers, func(idx []int) {
+		ord := ((idx[0]*dims[1]+idx[1])*dims[2]+idx[2])*dims[3] + idx[3]
+		runCase(tokens[idx[0]], variants(tokens[idx[0]])[idx[1]], rts[idx[2]], listeners[idx[3]], ord)
 	})
+	// ---- part 2: token shapes. Tokens of the lengths operators really configure (16 .. 200 characters) x every
+	// near miss derivable from the token (every proper prefix, every one-character substitution, every prefix
+	// followed by foreign text, the token followed by 1..3 more characters, the token repeated) x one route per kind.
+	base := dims[0] * dims[1] * dims[2] * dims[3]
+	var shapeRts []rt
+	seenKind := map[string]bool{}
+	for _, x := range rts {
+		if x.Kind != "not-an-endpoint" && x.Kind != "invalid-format" && !seenKind[x.Kind] && !strings.Contains(x.Path, "{self}") {
+			seenKind[x.Kind] = true
+			shapeRts = append(shapeRts, x)
+		}
+	}
+	type shapeCase struct {
+		token string
+		h     hv
+		rtv   rt
+	}
+	var shapes []shapeCase
+	for _, tok := range longTokens {
+		for _, h := range nearMisses(tok) {
+			for _, x := range shapeRts {
+				shapes = append(shapes, shapeCase{tok, h, x})
+			}
+		}
+	}
+	enumx.Each(r, "token-shapes", []int{len(shapes)}, workers, func(idx []int) {
+		c := shapes[idx[0]]
+		runCase(c.token, c.h, c.rtv, pipeline.Incoming, base+idx[0])
+	})
+	r.Add("token_shape_cases", int64(len(shapes)))
 	for i := 0; i < workers; i++ {
 		(<-pool).Close()
 	}
@@ -396,7 +472,7 @@ func main() {
 		rn = append(rn, x.Method+" "+x.Path)
 	}
 	r.Set("rule", "deny (token unconfigured, or no presented field value equals it) => status >= 400 and neither body nor headers contain any planted rules/config/ownership string; allow (non-empty token, every presented value equals it) => 200 with the route's data in the requested format")
-	r.Set("bounds", map[string]any{"tokens": tokens, "header_variants": vn, "routes": rn, "listeners": []string{"incoming", "peer"}})
+	r.Set("bounds", map[string]any{"tokens": tokens, "token_shape_tokens": longTokens, "token_shape_family": "exact; every proper prefix (bare, + foreign tail, padded to the token's length); every proper suffix; one-character substitution at every position; token + 1..3 more characters; token repeated; case variant", "header_variants": vn, "routes": rn, "listeners": []string{"incoming", "peer"}})
 	r.Set("peer_router_exposes_query_routes", true)
 	r.Assume("requests are built from HTTP/1.1 text with net/http's server-side parser, so optional whitespace around a field value is not part of the value: 'token + trailing space' on the wire IS the exact token and must be accepted")
 	r.Assume("when the header is present on two field lines of which only one is the exact token, the statement ('carries exactly that token') is read as open: either outcome is accepted (observed outcome recorded under mixed_value_outcomes); two lines that are both exact must be accepted, two wrong ones refused")
